@@ -43,11 +43,12 @@ def spec_config(db, rb, slack):
     if db is None and rb is None:
         return (F(1, 100), F(1))
     if db is not None:
-        return (F(db), F(1))
+        # "difference_bound and ratio_bound_slack must be non-negative" (fairlearn c80f72a, finding F24)
+        return "err:negslack" if F(db) < 0 else (F(db), F(1))
     r = F(rb)
     if not (0 < r <= 1):
         return "err:ratio"
-    return (F(slack), r)
+    return "err:negslack" if F(slack) < 0 else (F(slack), r)
 
 
 def spec_event(moment, y, c):
@@ -162,6 +163,136 @@ def make_predictor(hs, style):
     return lambda X: arr
 
 
+# ------------------------------------------------------------------ is the translator tie intact?
+# sha1 of the generated files the compiled Moments / Oracle model computes with, as lifted from the pinned tree.  A
+# model-vs-oracle disagreement is a bug of this machinery (HARNESS-ERROR) only while these files have the pinned content AND
+# no lifter behind a generated file of the property's import closure refused the tree under test (after a refusal the
+# file on disk is STALE: the model still follows the old text).  Otherwise it is a broken tie: a correspondence problem.
+PINNED_GENERATED = {
+    "MomentsSrc.lean": "ed9507e5fbdbe06c76eba46fca14333b5491ac00",
+    "LossRange.lean": "6be446ddd8548f558dee6434c1374eaafc3d488c",
+    "ProjectLambdaSrc.lean": "da3c0da380a16d666e93922128cb2caf1fe1347b",
+    "ValidationTables.lean": "26ec6e4d9b5ed5db709093f0a93035e3d9b202bd",
+    "OracleSrc.lean": "906344d5dc3d031ce859d707a060656da682078b",
+}
+_TIE = {}
+
+
+def tie_changes(module, pinned=None):
+    """generated files whose text differs from the pinned one, plus lifter refusals that concern `module` (cached)"""
+    key = module
+    if key not in _TIE:
+        import hashlib
+        import os
+        from .. import core, translate
+        pinned = PINNED_GENERATED if pinned is None else pinned
+        ch = []
+        try:
+            info = translate.run(core.REPO)
+            deps = translate.generated_deps(module)
+            for fn, msg in (info.get("_refused") or {}).items():
+                if fn in deps or fn in pinned or fn.startswith("?"):
+                    ch.append(f"{fn}: lifter refused ({str(msg)[:100]})")
+        except Exception as e:  # noqa: BLE001  (a crashing lifter is a broken tie as well)
+            ch.append(f"translator failed: {type(e).__name__}: {str(e)[:100]}")
+        for fn, sha in pinned.items():
+            try:
+                with open(os.path.join(translate.GEN_DIR, fn), "rb") as f:
+                    cur = hashlib.sha1(f.read()).hexdigest()
+            except OSError:
+                cur = None
+            if cur != sha:
+                ch.append(f"{fn}: generated text changed")
+        _TIE[key] = ch
+    return _TIE[key]
+
+
+def demote_harness(probs, module, relation):
+    """model-vs-oracle disagreements become correspondence problems (broken tie) once the tie is not intact"""
+    if not any(p.kind == "harness" for p in probs):
+        return probs
+    ch = tie_changes(module)
+    if not ch:
+        return probs
+    return [Problem("correspondence", p.msg + f"; the translator tie is broken: {ch[:3]}", relation) if p.kind == "harness" else p
+            for p in probs]
+
+
+# ------------------------------------------------------------------ a moment object may have a PREVIOUS LIFE
+# Moment objects are re-loadable (`load_data` may be called again, and the mitigators do call it on user-supplied objects).
+# With probability ~0.3 the object under test has first been loaded on an AUXILIARY data set of a different length and
+# group set and queried (gamma, signed_weights, project_lambda, bound) before the `load_data` of the case's own data.
+# Everything the checks assert is about the data loaded LAST, so the judges are unchanged; state that survives a reload
+# (a cache that `load_data` does not clear, seeded change C07a) now produces a concrete failing input.
+HISTORY_P = 0.3
+NO_HISTORY_KINDS = ("cfg", "errcfg", "loss")
+
+
+def gen_history(rng, case):
+    n0 = len(case.get("y") or [])
+    n = rng.choice([k for k in (3, 4, 5, 7, 9) if k != n0])
+    groups = rng.choice([["p", "q"], ["p", "q", "r"], ["q", "zz"]])
+    g = [groups[i % len(groups)] for i in range(n)]
+    rng.shuffle(g)
+    y = [str(i % 2) for i in range(n)]
+    rng.shuffle(y)
+    c = None
+    if case.get("c") is not None:
+        c = [rng.choice(["s", "t"]) for _ in range(n)]
+    return {"kind": "reloaded", "y": y, "g": g, "c": c, "h": [str(F(rng.randint(0, 4), 4)) for _ in range(n)],
+            "lam": [str(F(rng.randint(0, 6), 2)) for _ in range(12)]}
+
+
+def with_history(gen, rng):
+    """wrap a case generator: attach a previous life to ~30 % of the cases that load data into a moment"""
+    for case in gen:
+        if isinstance(case, dict) and case.get("kind") not in NO_HISTORY_KINDS and "history" not in case \
+                and rng.random() < HISTORY_P:
+            case = dict(case, history=gen_history(rng, case))
+        yield case
+
+
+def previous_life(obj, case):
+    """run the previous life of `case` (if it has one) on the moment object `obj`; returns `obj`"""
+    h = case.get("history") if isinstance(case, dict) else None
+    if not h or h.get("kind") != "reloaded":
+        return obj
+    import inspect
+    n = len(h["y"])
+    X = np.arange(100, 100 + n, dtype=float).reshape(-1, 1)
+    kw = {"sensitive_features": list(h["g"])}
+    if h.get("c") is not None and "control_features" in inspect.signature(obj.load_data).parameters:
+        kw["control_features"] = list(h["c"])
+    obj.load_data(X, [int(v) for v in h["y"]], **kw)
+    arr = np.array([float(F(v)) for v in h["h"]])
+    obj.gamma(lambda X_: arr)
+    idx = obj.index
+    lam = pd.Series([float(F(h["lam"][i % len(h["lam"])])) for i in range(len(idx))], index=idx)
+    if type(obj).__name__ == "ErrorRate":
+        obj.signed_weights()
+        obj.signed_weights(lam)
+    else:
+        obj.signed_weights(lam)
+    if len(idx):
+        try:
+            obj.project_lambda(lam)
+        except NotImplementedError:         # the abstract default of `Moment`
+            pass
+    try:
+        obj.bound()
+    except NotImplementedError:             # ErrorRate has no bound()
+        pass
+    except ValueError:                      # BoundedGroupLoss(upper_bound=None).bound(): "No Upper Bound" (documented)
+        if getattr(obj, "upper_bound", 0) is not None:
+            raise
+    return obj
+
+
+def history_tag(case):
+    h = case.get("history") if isinstance(case, dict) else None
+    return "history=reloaded" if h and h.get("kind") == "reloaded" else "history=fresh"
+
+
 def make_moment(case):
     import fairlearn.reductions as red
     cls = getattr(red, MOMENTS[case["moment"]])
@@ -171,7 +302,7 @@ def make_moment(case):
     if case["rb"] is not None:
         kw["ratio_bound"] = fl(case["rb"])
         kw["ratio_bound_slack"] = fl(case["slack"])
-    return cls(**kw)
+    return previous_life(cls(**kw), case)
 
 
 def index_keys(index):
@@ -283,6 +414,9 @@ class CHECK(Check):
 
     # ------------------------------------------------------------------ generation
     def generate(self, rng, tier):
+        return with_history(self._generate(rng, tier), rng)
+
+    def _generate(self, rng, tier):
         while True:
             r = rng.random()
             if r < 0.76:
@@ -328,9 +462,15 @@ class CHECK(Check):
                 if k < 0.35:
                     yield {"kind": "cfg", "moment": rng.choice(list(MOMENTS)), "db": rng.choice(EPS),
                            "rb": rng.choice(RATIOS), "slack": "0"}
+                elif k < 0.5:
+                    # the constructor branches one by one (lifted into Moments.mkConfig): difference bound alone incl. a
+                    # negative one, ratio bound with a negative / zero / positive slack, neither
+                    yield {"kind": "cfg", "moment": rng.choice(list(MOMENTS)),
+                           "db": rng.choice(EPS + ["-1/8", "-1", "-1/1024"]), "rb": None, "slack": rng.choice(["0", "-1/4", "1/8"])}
                 elif k < 0.7:
                     yield {"kind": "cfg", "moment": rng.choice(list(MOMENTS)), "db": None,
-                           "rb": rng.choice(["0", "-1/2", "3/2", "2", "1", "1/8"]), "slack": rng.choice(EPS)}
+                           "rb": rng.choice(["0", "-1/2", "3/2", "2", "1", "1/8", None]),
+                           "slack": rng.choice(EPS + ["-1/8", "-1/1024"])}
                 elif k < 0.85:
                     yield {"kind": "errcfg", "fp": rng.choice(["-1", "0", "1"]), "fn": rng.choice(["-1/2", "0", "2"]),
                            "shape": rng.choice(["ok", "ok", "missing_key", "extra_key"])}
@@ -420,7 +560,7 @@ class CHECK(Check):
                    "arr": [float(v) for v in np.asarray(loss.eval(ya, pa)).reshape(-1)],
                    "ser": [float(v) for v in np.asarray(loss.eval(pd.Series(ya), pd.Series(pa))).reshape(-1)]}
             if len(case["y"]) >= 2:     # one row is squeezed to 0-d by the input validation
-                m = red.BoundedGroupLoss(loss, upper_bound=0.5)
+                m = previous_life(red.BoundedGroupLoss(loss, upper_bound=0.5), case)
                 X = pd.DataFrame({"x": list(range(len(ya)))})
                 m.load_data(X, pd.Series(ya), sensitive_features=pd.Series(case["g"]))
                 gam = m.gamma(lambda X: pa)
@@ -459,7 +599,7 @@ class CHECK(Check):
             lo, hi = fl(case["lo"]), fl(case["hi"])
             loss = {"square": lambda: red.SquareLoss(lo, hi), "absolute": lambda: red.AbsoluteLoss(lo, hi),
                     "zeroone": lambda: red.ZeroOneLoss()}[case["loss"]]()
-            m = red.BoundedGroupLoss(loss, upper_bound=fl(case["ub"]))
+            m = previous_life(red.BoundedGroupLoss(loss, upper_bound=fl(case["ub"])), case)
             m.load_data(X, y, sensitive_features=sf)
             pred = make_predictor(case["h"], "flat")
             gam = m.gamma(pred)
@@ -478,10 +618,10 @@ class CHECK(Check):
             return out
         if kind == "err":
             if case["costs"] == "default":
-                m = red.ErrorRate()
+                m = previous_life(red.ErrorRate(), case)
             else:
                 try:
-                    m = red.ErrorRate(costs={"fp": fl(case["fp"]), "fn": fl(case["fn"])})
+                    m = previous_life(red.ErrorRate(costs={"fp": fl(case["fp"]), "fn": fl(case["fn"])}), case)
                 except ValueError:
                     return {"cfg": ["exc", "ValueError"]}
             m.load_data(X, y, sensitive_features=sf)
@@ -586,9 +726,10 @@ class CHECK(Check):
             model = {tag: out for (tag, _), out in zip(self._plan(case), mo)}
             bad = [t for t, v in model.items() if v == "bad-op"]
             if bad:
-                return [Problem("harness", f"driver rejected lines {bad}")]
+                return demote_harness([Problem("harness", f"driver rejected lines {bad}")], self.module,
+                                      "C06.generated-model-vs-spec")
         kind = case["kind"]
-        return getattr(self, "_judge_" + kind)(case, o, model)
+        return demote_harness(getattr(self, "_judge_" + kind)(case, o, model), self.module, "C06.generated-model-vs-spec")
 
     def _judge_cfg(self, case, o, model):
         probs = []
@@ -821,6 +962,8 @@ class CHECK(Check):
     def signature(self, case, o):
         kind = case["kind"]
         tags = [f"kind={kind}"]
+        if kind not in NO_HISTORY_KINDS:
+            tags.append(history_tag(case))
         nontriv = True
         if kind == "parity":
             n = len(case["y"])
